@@ -186,18 +186,26 @@ class LV:
             return KExpr('masked', [self, key])
         if not isinstance(key, tuple):
             key = (key,)
-        # expand Ellipsis
+        # expand Ellipsis (None entries add an axis and consume none)
+        nreal = sum(1 for k in key if k is not None and k is not Ellipsis)
         if any(k is Ellipsis for k in key):
             i = [k is Ellipsis for k in key].index(True)
-            fill = self.ndim - (len(key) - 1)
+            fill = self.ndim - nreal
             key = key[:i] + (slice(None),) * fill + key[i + 1:]
-        key = key + (slice(None),) * (self.ndim - len(key))
-        if len(key) != self.ndim:
+            nreal += fill
+        key = key + (slice(None),) * (self.ndim - nreal)
+        if sum(1 for k in key if k is not None) != self.ndim:
             unsupported('index with %d entries on a %d-D view' % (len(key), self.ndim))
             return self
         out_shape = []
-        maps = []          # per source axis: ('keep', start, step) | ('fix', value) | ('list', [values])
-        for d, k in enumerate(key):
+        maps = []          # per output / source axis: ('keep', start, step) | ('fix', value) | ('list', [values]) | ('new',)
+        d = -1
+        for k in key:
+            if k is None:
+                out_shape.append(1)
+                maps.append(('new',))
+                continue
+            d += 1
             n = self.shape[d]
             if isinstance(k, slice):
                 if k.step not in (None, 1) and not (isinstance(k.step, int) and k.step > 0):
@@ -236,7 +244,9 @@ class LV:
             src = []
             j = 0
             for m in maps:
-                if m[0] == 'fix':
+                if m[0] == 'new':
+                    j += 1
+                elif m[0] == 'fix':
                     src.append(m[1])
                 elif m[0] == 'keep':
                     src.append(m[1] + m[2] * idx[j])
@@ -371,7 +381,7 @@ def concat_last(seq):
 
 def concatenate(seq, axis=0):
     seq = list(seq)
-    if axis in (-1,) and all(isinstance(x, LV) and x.ndim > 1 for x in seq):
+    if all(isinstance(x, LV) and x.ndim > 1 for x in seq) and (axis == -1 or axis == seq[0].ndim - 1):
         return concat_last(seq)
     parts = []
     for x in seq:
